@@ -368,12 +368,12 @@ PROPS['C04'] = {
 PROPS['C19'] = {
     'level': 'model_checking',
     'kani': [
-        H(ARB + 'c19_k_arbitrary_str_4', ['arbitrary::arbitrary_str::<4>'], kind='bounded', bound='inputs of exactly 12 bytes (8 length + 4 text), all contents', features='arbitrary', timeout=1200),
-        H(ARB + 'c19_k_arbitrary_str_4_short_input', ['arbitrary::arbitrary_str::<4>'], kind='bounded', bound='inputs of exactly 10, 8 and 3 bytes', features='arbitrary', timeout=1200),
+        H(ARB + 'c19_k_arbitrary_str_4', ['arbitrary::arbitrary_str::<4>'], kind='bounded', bound='declared length 1000, 6 symbolic text bytes', features='arbitrary', timeout=1200),
+        H(ARB + 'c19_k_arbitrary_str_4_short_input', ['arbitrary::arbitrary_str::<4>'], kind='bounded', bound='declared lengths 0, 3, 4, 5 with 0..=4 symbolic text bytes', features='arbitrary', tier='thorough', timeout=3600),
         H(ARB + 'c19_k_arbitrary_bytes', ['arbitrary::arbitrary_bytes::<4|32>'], kind='bounded', bound='inputs <= 16 bytes', features='arbitrary', timeout=1200),
         H(ARB + 'c19_k_arbitrary_byte_array', ['arbitrary::arbitrary_byte_array::<8>'], kind='bounded', bound='inputs <= 16 bytes', features='arbitrary', timeout=1200),
         H(ARB + 'c19_k_arbitrary_vec', ['arbitrary::arbitrary_vec::<u8, 3>'], kind='bounded', bound='inputs <= 16 bytes', features='arbitrary', timeout=1200),
-        H(ARB + 'c19_k_arbitrary_str_64', ['arbitrary::arbitrary_str::<64>'], kind='bounded', bound='inputs of exactly 14 bytes', features='arbitrary', tier='thorough', timeout=2400),
+        H(ARB + 'c19_k_arbitrary_str_64', ['arbitrary::arbitrary_str::<64>'], kind='bounded', bound='declared length 7, 8 symbolic text bytes', features='arbitrary', tier='thorough', timeout=2400),
         H(ARB + 'c19_k_ctap1_request', ['<ctap1::Request as Arbitrary>::arbitrary'], kind='bounded', bound='inputs <= 68 bytes', features='arbitrary', tier='thorough', timeout=2400),
     ],
     'assumptions': ['AK'],
